@@ -3,6 +3,7 @@ package main
 // C16 — all entry points agree on what a given argument list prints as.
 
 import (
+	"bytes"
 	"errors"
 	"strings"
 	"unicode/utf8"
@@ -304,6 +305,12 @@ func runC16(c *Ctx) {
 	c.ParallelFor(int64(len(calls)), func(w *Worker, i int64) {
 		c16check(w, calls[i], newRng(c.Seed, 0xc16a, uint64(i)), i)
 	})
+	c16nestedDirectives(c)
+	sc := scaleCalls()
+	c.AddCount("scale_calls", int64(len(sc)))
+	c.ParallelFor(int64(len(sc)), func(w *Worker, i int64) {
+		c16check(w, sc[i], newRng(c.Seed, 0xc16b, uint64(i)), i)
+	})
 	n := c.pick(500000, 6000000)
 	c.ParallelFor(n, func(w *Worker, i int64) {
 		r := newRng(c.Seed, 0xc16, uint64(i))
@@ -311,4 +318,84 @@ func runC16(c *Ctx) {
 		w.Count("random_calls", 1)
 	})
 	c.res.Assumptions = []string{"the reference model of the surrounding SafeWriter calls is the one of C09 (valid payloads only)"}
+}
+
+// c16nestedDirectives: what a SafeFormatter prints through its SafePrinter (nested Printf with %w, bad verbs, surplus
+// operands, indexes) is the same whichever entry point reached it — HelperForErrorf included, whose %w bookkeeping
+// concerns its own format only.
+func c16nestedDirectives(c *Ctx) {
+	c.Serial(func(w *Worker) {
+		inner := errors.New("boom")
+		top := errors.New("top")
+		nested := []fnFormatter{
+			func(p redact.SafePrinter) { p.Printf("cause: %w|%d", inner, 1) },
+			func(p redact.SafePrinter) { p.Printf("%w", inner) },
+			func(p redact.SafePrinter) { p.Printf("%w %w", inner, top) },
+			func(p redact.SafePrinter) { p.Printf("%[2]w %[1]v", 1, inner) },
+			func(p redact.SafePrinter) { p.Printf("%w", "not an error") },
+			func(p redact.SafePrinter) { p.Print(inner, 2); p.Printf("%!|%z|%d", 3) },
+			func(p redact.SafePrinter) { p.Printf("%v", fnFormatter(func(q redact.SafePrinter) { q.Printf("deep %w", inner) })) },
+		}
+		for ni, sf := range nested {
+			for _, f := range []string{"%v", "%s", "x %v: %w", "%w then %v", "%+v|%d", "%[2]v"} {
+				var args []interface{}
+				switch f {
+				case "x %v: %w":
+					args = []interface{}{sf, top}
+				case "%w then %v":
+					args = []interface{}{top, sf}
+				case "%+v|%d":
+					args = []interface{}{sf, 5}
+				case "%[2]v":
+					args = []interface{}{0, sf}
+				default:
+					args = []interface{}{sf}
+				}
+				hasW := strings.Contains(f, "%w")
+				res := map[string]string{}
+				run := func(name string, fn func() string) {
+					defer func() {
+						if r := recover(); r != nil {
+							res[name] = "PANIC: " + pvalString(r)
+						}
+					}()
+					res[name] = fn()
+				}
+				run("Sprintf", func() string { return string(redact.Sprintf(f, args...)) })
+				run("Fprintf", func() string { var b bytes.Buffer; _, _ = redact.Fprintf(&b, f, args...); return b.String() })
+				run("StringBuilder.Printf", func() string { var sb redact.StringBuilder; sb.Printf(f, args...); return string(sb.RedactableString()) })
+				run("Sprintfn", func() string { return string(redact.Sprintfn(func(p redact.SafePrinter) { p.Printf(f, args...) })) })
+				run("nested Printf", func() string {
+					return string(redact.Sprint(fnFormatter(func(p redact.SafePrinter) { p.Printf(f, args...) })))
+				})
+				w.Eval(5)
+				w.Nontrivial(hashStrs("c16nested", itoa(ni), f))
+				ref := res["Sprintf"]
+				for name, got := range res {
+					if got != ref {
+						w.Violate("C16 nested-directives", "format "+q(f)+" with a SafeFormatter (variant "+itoa(ni)+") that prints through its own Printf: "+name+" = "+q(got)+", Sprintf = "+q(ref),
+							map[string]interface{}{"format": f, "nested_variant": ni, "route": name})
+					}
+				}
+				// HelperForErrorf: identical to Sprintf when its own format has no %w; with a %w of its own, the text of the nested part is still the same
+				var he string
+				run("HelperForErrorf", func() string { s, _ := redact.HelperForErrorf(f, args...); return string(s) })
+				he = res["HelperForErrorf"]
+				w.Eval(1)
+				if !hasW {
+					if he != ref {
+						w.Violate("C16 nested-directives", "format "+q(f)+" (no %w of its own) with a SafeFormatter (variant "+itoa(ni)+") that prints through its own Printf: HelperForErrorf = "+q(he)+", Sprintf = "+q(ref),
+							map[string]interface{}{"format": f, "nested_variant": ni, "route": "HelperForErrorf"})
+					}
+				} else {
+					// the nested rendering, taken from a plain Sprint of the formatter, must occur in the HelperForErrorf text
+					part := string(redact.Sprint(sf))
+					if !strings.Contains(canon(he), strings.Trim(canon(part), startM+endM)) && !strings.Contains(he, part) {
+						w.Violate("C16 nested-directives", "format "+q(f)+": HelperForErrorf = "+q(he)+" does not contain the formatter's rendering "+q(part)+" that every other entry point prints",
+							map[string]interface{}{"format": f, "nested_variant": ni, "route": "HelperForErrorf"})
+					}
+				}
+			}
+		}
+	})
 }
